@@ -930,3 +930,215 @@ Example guard_not_compat_example :
   let g := {| g_os := (20, 5, 3); g_ns := (10, 5, 3); g_oc := (4, 2, 2); g_nc := (8, 2, 2); g_ch := 1 |} in
   tiling_guard g = true /\ compat g = false.
 Proof. vm_compute. split; reflexivity. Qed.
+
+(* ---------- outside the stretch class, "no error" implies compat ---------- *)
+
+Lemma bc_ok_cases : forall s d, bc_ok s d = true <-> s = d \/ s = 1.
+Proof.
+  intros s d. unfold bc_ok. rewrite orb_true_iff, !Z.eqb_eq. reflexivity.
+Qed.
+
+(* arithmetic core, one axis: the two assignments of new chunk 0 (lower part,
+   and upper part when it exists) pass NumPy's shape check; oc = f*h + r *)
+Lemma pass_core : forall f h r os ns oc nc,
+  (f = 1 \/ f = 2) -> oc = f * h + r -> 0 <= r < f -> 1 <= h -> 0 < os -> 0 < nc ->
+  ns = ceil_div os f ->
+  (ceil_div (Z.min oc os) f = Z.min h (Z.min nc ns) \/ ceil_div (Z.min oc os) f = 1) ->
+  (h < Z.min nc ns ->
+     oc < os /\
+     (ceil_div (Z.min (oc * 2) os - oc) f = Z.min nc ns - Z.min h (Z.min nc ns) \/
+      ceil_div (Z.min (oc * 2) os - oc) f = 1)) ->
+  ~ (oc = f /\ 3 <= Z.min nc ns) ->
+  (ns <= nc /\ ns <= h) \/
+  (r = 0 /\ ((ns <= nc /\ ns <= 2 * h) \/ nc = h \/ nc = 2 * h)).
+Proof.
+  intros f h r os ns oc nc Hf Hoc Hr Hh Hos Hnc Hns P0 P1 Hst.
+  unfold ceil_div in *. destruct Hf as [-> | ->]; lia.
+Qed.
+
+Lemma axis_pass_compat : forall os ns oc nc,
+  0 < os -> 0 < oc -> 0 < nc -> ns = ceil_div os (ax_f os ns) -> 1 <= ax_h os ns oc ->
+  bc_ok (ax_src os ns oc nc 0 0) (ax_dext 0 (ax_e ns nc 0) (ax_h os ns oc)) = true ->
+  (ax_cond 1 (ax_e ns nc 0) (ax_h os ns oc) = true ->
+     0 <= ax_olo os ns oc nc 0 1 < os /\
+     bc_ok (ax_src os ns oc nc 0 1) (ax_dext 1 (ax_e ns nc 0) (ax_h os ns oc)) = true) ->
+  stretch_axis os ns oc nc = false ->
+  compat_axis os ns oc nc = true.
+Proof.
+  intros os ns oc nc Hos Hoc Hnc Hns Hh P0 P1 Hst.
+  unfold ax_src, ax_ohi, ax_olo, ax_j, ax_e, ax_dext, ax_cond in *.
+  remember (ax_cff os ns oc nc) as cff eqn:Ecff. clear Ecff.
+  remember (ax_h os ns oc) as h eqn:Eh. unfold ax_h in Eh.
+  remember (ax_f os ns) as f eqn:Ef.
+  assert (Hf : f = 1 \/ f = 2) by (rewrite Ef; apply ax_f_cases).
+  replace (0 * cff + 0) with 0 in P0 by ring. replace (0 * cff + 1) with 1 in P1 by ring.
+  replace (oc * 0) with 0 in P0 by ring. replace (oc * (0 + 1)) with oc in P0 by ring.
+  replace (oc * 1) with oc in P1 by ring. replace (oc * (1 + 1)) with (oc * 2) in P1 by ring.
+  replace (nc * (0 + 1)) with nc in * by ring. replace (nc * 0) with 0 in * by ring.
+  rewrite !Z.sub_0_r in *. simpl (0 =? 0) in P0. simpl (1 =? 0) in P1. cbv iota in P0, P1.
+  rewrite orb_false_l in P1. rewrite bc_ok_cases in P0.
+  assert (P1' : h < Z.min nc ns ->
+     oc < os /\ (ceil_div (Z.min (oc * 2) os - oc) f = Z.min nc ns - Z.min h (Z.min nc ns) \/
+                 ceil_div (Z.min (oc * 2) os - oc) f = 1)).
+  { intro Hlt. destruct (P1 (proj2 (Z.ltb_lt _ _) Hlt)) as [L B]. rewrite bc_ok_cases in B.
+    split; [lia | exact B]. }
+  assert (Hst' : ~ (oc = f /\ 3 <= Z.min nc ns)).
+  { intros [E1 E2]. unfold stretch_axis in Hst. rewrite <- Ef in Hst.
+    apply andb_false_iff in Hst. destruct Hst as [Hst|Hst];
+      [apply Z.eqb_neq in Hst | apply Z.leb_gt in Hst]; lia. }
+  assert (Hdiv : oc = f * h + oc mod f /\ 0 <= oc mod f < f).
+  { rewrite Eh. split; [apply Z.div_mod; lia | apply Z.mod_pos_bound; lia]. }
+  destruct Hdiv as [Hd1 Hd2].
+  pose proof (pass_core f h (oc mod f) os ns oc nc Hf Hd1 Hd2 Hh Hos Hnc Hns P0 P1' Hst') as K.
+  unfold compat_axis. rewrite <- Ef, <- Eh.
+  apply andb_true_iff. split; [apply Z.leb_le; exact Hh|].
+  apply orb_true_iff. destruct K as [[K1 K2] | [Kr K]].
+  - left. apply andb_true_iff. split; apply Z.leb_le; assumption.
+  - right. apply andb_true_iff. split; [apply Z.eqb_eq; lia|].
+    apply orb_true_iff. destruct K as [[K1 K2] | [K | K]].
+    + left. apply andb_true_iff. split; apply Z.leb_le; assumption.
+    + right. apply andb_true_iff. split; [apply Z.eqb_eq; subst nc; apply Z.mod_same; lia | apply Z.leb_le; lia].
+    + right. apply andb_true_iff. split; [apply Z.eqb_eq; subst nc; apply Z.mod_mul; lia | apply Z.leb_le; lia].
+Qed.
+
+Section Strong.
+
+Variable ds : t3 -> arr -> arr.
+Hypothesis ds_shape : ds_shape_prop ds.
+
+Lemma octant_step_err : forall g lvl idx e acc b,
+  (forall buf, acc <> Ok buf) -> forall buf, octant_step ds g lvl idx e acc b <> Ok buf.
+Proof.
+  intros g lvl idx e acc b H buf. unfold octant_step.
+  destruct acc as [b0| | | | | |k]; cbn [bind]; try discriminate. exfalso. apply (H b0). reflexivity.
+Qed.
+
+Lemma fold_err : forall g lvl idx e octs acc,
+  (forall buf, acc <> Ok buf) ->
+  forall buf, fold_left (octant_step ds g lvl idx e) octs acc <> Ok buf.
+Proof.
+  intros g lvl idx e octs. induction octs as [|b octs IH]; intros acc H buf; simpl.
+  - apply H.
+  - apply IH. apply octant_step_err. exact H.
+Qed.
+
+(* every executed assignment of a successful chunk passed the read and the
+   shape check *)
+Lemma fold_ok_steps : forall g lvl idx e octs acc buf,
+  fold_left (octant_step ds g lvl idx e) octs acc = Ok buf ->
+  forall b, In b octs -> forall3_3 ax_cond b e (half_chunk g) = true ->
+  exists src, load_ds ds g lvl (add3 (mul3 idx (fetch_factor g)) b) = Ok src /\
+              forall3_2 bc_ok (a_sh src)
+                (zip3_3 ax_dext b e (half_chunk g)) = true.
+Proof.
+  intros g lvl idx e octs. induction octs as [|b0 octs IH]; intros acc buf H b Hin Hc; [destruct Hin|].
+  simpl in H. destruct Hin as [->|Hin]; [|eapply IH; eassumption].
+  destruct (octant_step ds g lvl idx e acc b) as [b1| | | | | |k] eqn:Hs;
+    try (exfalso; eapply fold_err; [|exact H]; intros bb Hbb; discriminate).
+  unfold octant_step in Hs. destruct acc as [a0| | | | | |k]; cbn [bind] in Hs; try discriminate.
+  rewrite Hc in Hs.
+  destruct (load_ds ds g lvl (add3 (mul3 idx (fetch_factor g)) b)) as [src| | | | | |k] eqn:Hl;
+    cbn [bind] in Hs; try discriminate.
+  exists src. split; [reflexivity|]. unfold assign in Hs.
+  destruct (bc_ok (a_c src) (b_c a0) && forall3_2 bc_ok (a_sh src) (zip3_3 ax_dext b e (half_chunk g))) eqn:Hb;
+    [|discriminate].
+  apply andb_true_iff in Hb. exact (proj2 Hb).
+Qed.
+
+Lemma load_ds_facts : forall g lvl j src, load_ds ds g lvl j = Ok src ->
+  (forall a, 0 <= get3 a (mul3 (g_oc g) j) < get3 a (g_os g)) /\
+  a_sh src = cdiv3 (sub3 (min3 (mul3 (g_oc g) (add3 j one3)) (g_os g)) (mul3 (g_oc g) j)) (factors g).
+Proof.
+  intros g lvl j src H. unfold load_ds, read_chunk in H.
+  destruct (validate_chunk_coords (g_os g) (g_oc g) (mul3 (g_oc g) j)
+              (min3 (mul3 (g_oc g) (add3 j one3)) (g_os g))) eqn:V; cbn [negb] in H; [|discriminate].
+  destruct (chunk_exists (g_os g) (mul3 (g_oc g) j)); cbn [negb bind] in H; [|discriminate].
+  inversion H; subst src. split.
+  - unfold validate_chunk_coords in V. apply andb_true_iff in V. destruct V as [V _].
+    rewrite forall3_3_spec in V. intro a. specialize (V a).
+    rewrite !andb_true_iff in V. destruct V as [[V1 V2] _]. apply Z.leb_le in V1. apply Z.ltb_lt in V2. lia.
+  - rewrite (proj1 (ds_shape _ _)). reflexivity.
+Qed.
+
+Definition unit3 (a : axis) : t3 :=
+  match a with AX => (1, 0, 0) | AY => (0, 1, 0) | AZ => (0, 0, 1) end.
+
+Lemma get3_unit3 : forall a a', get3 a' (unit3 a) = if match a, a' with AX, AX | AY, AY | AZ, AZ => true | _, _ => false end then 1 else 0.
+Proof. intros a a'; destruct a, a'; reflexivity. Qed.
+
+Theorem ok_outside_stretch_is_compat : forall g lvl chunks,
+  geom_pos g = true -> tile_level ds g lvl = Ok chunks -> stretch_class g = false ->
+  compat g = true.
+Proof.
+  intros g lvl chunks Hpos H Hst. unfold tile_level in H.
+  destruct (eqb3 (g_ns g) (cdiv3 (g_os g) (factors g))) eqn:Hsz; cbn [negb] in H; [|discriminate].
+  destruct (forall3 (fun h => negb (h =? 0)) (half_chunk g)) eqn:Hhz; cbn [negb] in H; [|discriminate].
+  destruct (geom_pos_spec g Hpos) as [Pos [Pns [Poc [Pnc Pch]]]].
+  assert (Hszs : sizes_ok g = true) by exact Hsz.
+  unfold compat. rewrite Hpos, Hszs. cbn [andb]. apply forall3_4_spec. intro a.
+  (* chunk (0,0,0) was computed *)
+  assert (H0 : In (0, 0, 0) (ndindex (chunk_range g))).
+  { apply in_ndindex. intro a'. unfold chunk_range, cdiv3. rewrite get3_zip3.
+    replace (get3 a' (0, 0, 0)) with 0 by (destruct a'; reflexivity).
+    split; [lia|]. apply ceil_div_pos; [apply Pns | apply Pnc]. }
+  apply mapM_ok_Forall2 in H. destruct (Forall2_In_r _ _ _ _ H H0) as [[[lo hi] buf] [_ Ht]].
+  unfold tile_chunk in Ht.
+  set (e := sub3 (new_hi g (0, 0, 0)) (new_lo g (0, 0, 0))) in *.
+  destruct (fold_left (octant_step ds g lvl (0, 0, 0) e) octants _) as [bf| | | | | |k] eqn:Hf;
+    cbn [bind] in Ht; try discriminate. clear Ht.
+  assert (Ee : forall a', get3 a' e = ax_e (get3 a' (g_ns g)) (get3 a' (g_nc g)) 0).
+  { intro a'. unfold e. rewrite get3_new_ext. replace (get3 a' (0, 0, 0)) with 0 by (destruct a'; reflexivity). reflexivity. }
+  assert (Hh : 1 <= ax_h (get3 a (g_os g)) (get3 a (g_ns g)) (get3 a (g_oc g))).
+  { rewrite forall3_spec in Hhz. specialize (Hhz a). rewrite get3_half in Hhz.
+    apply negb_true_iff in Hhz. apply Z.eqb_neq in Hhz. unfold ax_h in *.
+    pose proof (Z.div_pos (get3 a (g_oc g)) (ax_f (get3 a (g_os g)) (get3 a (g_ns g)))
+                  ltac:(specialize (Poc a); lia)
+                  ltac:(destruct (ax_f_cases (get3 a (g_os g)) (get3 a (g_ns g))); lia)). lia. }
+  (* facts about an executed octant b of chunk 0, read on axis a *)
+  assert (Hstep : forall b, In b octants -> forall3_3 ax_cond b e (half_chunk g) = true ->
+     0 <= ax_olo (get3 a (g_os g)) (get3 a (g_ns g)) (get3 a (g_oc g)) (get3 a (g_nc g)) 0 (get3 a b)
+       < get3 a (g_os g) /\
+     bc_ok (ax_src (get3 a (g_os g)) (get3 a (g_ns g)) (get3 a (g_oc g)) (get3 a (g_nc g)) 0 (get3 a b))
+           (ax_dext (get3 a b) (ax_e (get3 a (g_ns g)) (get3 a (g_nc g)) 0)
+                    (ax_h (get3 a (g_os g)) (get3 a (g_ns g)) (get3 a (g_oc g)))) = true).
+  { intros b Hb Hc. destruct (fold_ok_steps g lvl (0, 0, 0) e octants _ bf Hf b Hb Hc) as [src [Hl Hbc]].
+    destruct (load_ds_facts g lvl _ src Hl) as [L S].
+    rewrite forall3_2_spec in Hbc. specialize (Hbc a). specialize (L a).
+    rewrite S in Hbc. unfold cdiv3, sub3, min3, mul3, add3 in Hbc, L.
+    repeat rewrite ?get3_zip3, ?get3_zip3_3, ?get3_one3, ?get3_fetch, ?get3_factors, ?get3_half, ?Ee in Hbc.
+    repeat rewrite ?get3_zip3, ?get3_zip3_3, ?get3_one3, ?get3_fetch, ?get3_factors, ?get3_half, ?Ee in L.
+    replace (get3 a (0, 0, 0)) with 0 in Hbc by (destruct a; reflexivity).
+    replace (get3 a (0, 0, 0)) with 0 in L by (destruct a; reflexivity).
+    split; [exact L | exact Hbc]. }
+  apply axis_pass_compat; try apply Pos; try apply Poc; try apply Pnc; try exact Hh.
+  - apply (sizes_ok_spec g Hszs).
+  - assert (Hc0 : forall3_3 ax_cond (0, 0, 0) e (half_chunk g) = true).
+    { apply forall3_3_spec. intro a'. replace (get3 a' (0, 0, 0)) with 0 by (destruct a'; reflexivity). reflexivity. }
+    destruct (Hstep (0, 0, 0) ltac:(left; reflexivity) Hc0) as [_ B].
+    replace (get3 a (0, 0, 0)) with 0 in B by (destruct a; reflexivity). exact B.
+  - intro Hc1.
+    assert (Hcu : forall3_3 ax_cond (unit3 a) e (half_chunk g) = true).
+    { apply forall3_3_spec. intro a'. rewrite get3_unit3, Ee, get3_half.
+      destruct a, a'; try reflexivity; exact Hc1. }
+    assert (Hin : In (unit3 a) octants) by (destruct a; simpl; tauto).
+    destruct (Hstep (unit3 a) Hin Hcu) as [L B].
+    replace (get3 a (unit3 a)) with 1 in L, B by (destruct a; reflexivity). split; assumption.
+  - unfold stretch_class, exists3_4 in Hst. apply negb_false_iff in Hst.
+    rewrite forall3_4_spec in Hst. specialize (Hst a). apply negb_true_iff in Hst. exact Hst.
+Qed.
+
+Hypothesis ds_local : ds_local_prop ds.
+
+(* the length-1 stretch is the ONLY way compute_dyadic_downscaling can write a
+   wrong level without raising *)
+Theorem tiling_sound_outside_stretch : forall g lvl chunks,
+  geom_pos g = true -> stretch_class g = false -> a_sh lvl = g_os g -> a_c lvl = g_ch g ->
+  tile_level ds g lvl = Ok chunks ->
+  Forall (chunk_is_restriction ds g lvl) chunks.
+Proof.
+  intros g lvl chunks Hpos Hst Hsh Hch H.
+  pose proof (ok_outside_stretch_is_compat g lvl chunks Hpos H Hst) as Hc.
+  apply (tiling_sound_on_guard ds ds_shape ds_local g lvl chunks (compat_guard g Hc) Hsh Hch H).
+Qed.
+
+End Strong.
